@@ -202,25 +202,20 @@ theorem mem_swapRemove_of_ne {α : Type} (pre post : List α) (x y : α) (hy : y
   · exact Or.inr h
 
 /-- `SystemEventAccessTracker::start` on an idle tracker keeps every reader: the claimed entry becomes the current one. -/
-theorem start_keeps (t : TrkData) (sys d : Nat) (hidle : t.reacting = false) (sys' : Nat) (h : (sys', d) ∈ t.prepared) :
-    (∃ s2, (s2, d) ∈ (t.start sys).prepared) ∨ ((t.start sys).reacting = true ∧ (t.start sys).cur = d) := by
-  unfold TrkData.start
-  cases hf : findIdx' (fun p => p.1 == sys) t.prepared 0 with
-  | none => exact Or.inl ⟨sys', by simpa using h⟩
-  | some i =>
-    obtain ⟨pre, x, post, hl, hlen, _⟩ := split_at_first _ _ _ hf
-    have hget : t.prepared[i]? = some x := by rw [hl, ← hlen]; simp
-    obtain ⟨x1, x2⟩ := x
-    simp only [hget]
-    by_cases hx : (sys', d) = (x1, x2)
+theorem start_keeps (t : TrkData) (sys d0 d : Nat) (hidle : t.reacting = false) (sys' : Nat) (h : (sys', d) ∈ t.prepared) :
+    (∃ s2, (s2, d) ∈ (t.start sys d0).prepared) ∨ ((t.start sys d0).reacting = true ∧ (t.start sys d0).cur = d) := by
+  by_cases hm : (sys, d0) ∈ t.prepared
+  · obtain ⟨h1, h2, h3⟩ := TrkData.start_claims_own t sys d0 hm
+    by_cases hx : (sys', d) = (sys, d0)
     · right
       simp only [Prod.mk.injEq] at hx
-      exact ⟨by simp, by simp [hx.2]⟩
+      exact ⟨h1, by rw [h2, hx.2]⟩
     · left
       refine ⟨sys', ?_⟩
-      show (sys', d) ∈ swapRemove t.prepared i
-      rw [hl, ← hlen]
-      exact mem_swapRemove_of_ne pre post (x1, x2) (sys', d) (by rw [← hl]; exact h) hx
+      rw [h3]
+      exact (List.mem_erase_of_ne hx).mpr h
+  · rw [TrkData.start_none t sys d0 hm]
+    exact Or.inl ⟨sys', h⟩
 
 theorem setupK_trkSys_other (s : St) (k : Kind) (sys : Nat) (h : ∀ d, k ≠ .sysEv d) : (setupK s k sys).trkSys = s.trkSys := by
   cases k <;> simp only [setupK] <;> first | exact absurd rfl (h _) | rfl | (split <;> simp)
@@ -233,7 +228,7 @@ theorem setupK_sysReaders {s : St} {extra : List Cmd} (k : Kind) (sys : Nat) (hi
   · obtain ⟨d0, rfl⟩ := hk
     simp only [setupK]
     rcases h with ⟨sys', h⟩ | ⟨h1, _⟩ | ⟨sys', h⟩
-    · rcases start_keeps s.trkSys sys d hidle sys' h with h' | h'
+    · rcases start_keeps s.trkSys sys d0 d hidle sys' h with h' | h'
       · exact Or.inl h'
       · exact Or.inr (Or.inl h')
     · rw [hidle] at h1; cases h1
@@ -390,7 +385,7 @@ theorem sys_applyCmd (s : St) (c : Cmd) (hdead : DeadOK s)
   | run sys => exact gen _ [.runnerStart sys .plain] (SysOld.of_eq rfl) rfl rfl rfl (fun _ _ h => by cases h) (one _ rfl)
   | reactRes sys => exact gen _ [.runnerStart sys .plain] (SysOld.of_eq rfl) rfl rfl rfl (fun _ _ h => by cases h) (one _ rfl)
   | reactEnt src rt sys => exact gen _ [.runnerStart sys (.entReact src rt)] (SysOld.of_eq rfl) rfl rfl rfl (fun _ _ h => by cases h) (one _ rfl)
-  | reactDsp src sys h => exact gen _ [.runnerStart sys (.dspReact src)] (SysOld.of_eq rfl) rfl rfl rfl (fun _ _ h => by cases h) (one _ rfl)
+  | reactDsp src sys h => exact gen _ [.runnerStart sys (.dspReact src h)] (SysOld.of_eq rfl) rfl rfl rfl (fun _ _ h => by cases h) (one _ rfl)
   | reactEv target d sys => exact gen _ [.runnerStart sys (.entEv target d)] (SysOld.of_eq rfl) rfl rfl rfl (fun _ _ h => by cases h) (one _ rfl)
   | reactBc d sys => exact gen _ [.runnerStart sys (.bcEv d)] (SysOld.of_eq rfl) rfl rfl rfl (fun _ _ h => by cases h) (one _ rfl)
   | spawnStorage sys => simp only [applyCmd]; split <;> exact gen _ [] (SysOld.of_eq rfl) rfl rfl rfl (fun _ _ h => by cases h) nof
